@@ -107,6 +107,24 @@ CATALOGUE = [
     ("transform-pen-skips-lineto", "pens/transformPen.py", "    def lineTo(self, pt):\n        self._outPen.lineTo(self._transformPoint(pt))", "    def lineTo(self, pt):\n        self._outPen.lineTo(pt)", "C14", "TransformAndRoundingPens", "alarm"),
     ("point-pen-rotation", "pens/pointPen.py", "                points = points[firstOnCurve + 1 :] + points[: firstOnCurve + 1]", "                points = points[firstOnCurve:] + points[:firstOnCurve]", "C14", "SegmentPointRoundTrip", "alarm"),
     ("quadratic-bounds-root-sign", "misc/bezierTools.py", "        roots.append(-by / ay2)", "        roots.append(by / ay2)", "C14", "QuadraticBounds", "alarm"),
+    # round 3
+    ("options-shared-drop-tables", "subset/__init__.py", "self.drop_tables = self._drop_tables_default[:]", "self.drop_tables = self._drop_tables_default", "C16", "OptionsDefaultsAreNotShared", "alarm"),
+    ("merge-scripts-first-default-only", "merge/layout.py", "dfltLangSyses = [s.DefaultLangSys for s in lst if s.DefaultLangSys]", "dfltLangSyses = [s.DefaultLangSys for s in lst[:1] if s.DefaultLangSys]", "C18", "MergeScriptRecords", "alarm"),
+    ("merge-scripts-sorted-spelling", "merge/layout.py", "    for tag, langSys_list in sorted(langSyses.items()):", "    for tag in sorted(langSyses):\n        langSys_list = langSyses[tag]", "C18", "MergeScriptRecords", "green"),
+    ("implied-oncurve-union", "ttLib/tables/_g_l_y_f.py", "            drop.intersection_update(may_drop)", "            drop.update(may_drop)", "C10", "DropImpliedOnCurvePoints", "alarm"),
+    ("implied-oncurve-mixed-neighbours", "ttLib/tables/_g_l_y_f.py", "                if (flags[prv] & flagOnCurve) or flags[prv] != flags[nxt]:", "                if flags[prv] & flagOnCurve:", "C10", "DropImpliedOnCurvePoints", "alarm"),
+    ("implied-oncurve-prev-spelling", "ttLib/tables/_g_l_y_f.py", "                prv = i - 1 if i > start else last", "                prv = last if i == start else i - 1", "C10", "DropImpliedOnCurvePoints", "green"),
+    ("spline-first-piece-unchecked", "qu2cu/qu2cu.py", "                if not cubic_farthest_fit_inside(p0, p1, p2, p3, tolerance):", "                if k and not cubic_farthest_fit_inside(p0, p1, p2, p3, tolerance):", "C13", "SplineToCurvesChecksEveryPiece", "alarm"),
+    ("spline-corner-not-forced", "qu2cu/qu2cu.py", "        if i in forced:\n            start = i", "        if i in forced and i < 0:\n            start = i", "C13", "SplineToCurvesChecksEveryPiece", "alarm"),
+    ("subr-renumber-adds-bias", "cffLib/transforms.py", "                gsubrs._used.index(p[i - 1] + gsubrs._old_bias) - gsubrs._new_bias", "                gsubrs._used.index(p[i - 1] + gsubrs._old_bias) + gsubrs._new_bias", "C12", "SubsetSubroutineCalls", "alarm"),
+    ("triplet-decode-y-high-bits", "ttLib/woff2.py", "flag >> 1, 1 + (((b0 % 12) >> 2) << 8) + triplets[tripletIndex + 1]", "flag >> 1, 1 + (((b0 % 12) >> 1) << 8) + triplets[tripletIndex + 1]", "C15", "TripletDecode", "alarm"),
+    ("triplet-encode-class-bound", "ttLib/woff2.py", "            elif absX < 769 and absY < 769:", "            elif absX < 770 and absY < 769:", "C15", "TripletEncode", "alarm"),
+    ("triplet-encode-sign-spelling", "ttLib/woff2.py", "            xSignBit = 0 if (x < 0) else 1", "            xSignBit = 1 if (x >= 0) else 0", "C15", "TripletEncode", "green"),
+    ("gpos-zero-cell-either-value", "otlLib/optimize/gpos.py", "    return (v1 is None or v1.getEffectiveFormat() == 0) and (", "    return (v1 is None or v1.getEffectiveFormat() == 0) or (", "C06", "gpos", "alarm"),
+    ("mutator-value-delta-sign", "varLib/merger.py", "        setattr(self, name, getattr(self, name, 0) + delta)", "        setattr(self, name, getattr(self, name, 0) - delta)", "C08", "MutatorMergeValueRecord", "alarm"),
+    ("mutator-anchor-always-x", "varLib/merger.py", '        attr = v + "Coordinate"', '        attr = "XCoordinate"', "C08", "MutatorMergeAnchor", "alarm"),
+    ("closure-memo-never-invalidated", "subset/__init__.py", "    if count != len(s.glyphs):\n        count, covered = doneLookups[key] = (len(s.glyphs), set())", "    if count > len(s.glyphs):\n        count, covered = doneLookups[key] = (len(s.glyphs), set())", "C07", "LookupClosureMemo", "alarm"),
+    ("closure-memo-subset-spelling", "subset/__init__.py", "    if cur_glyphs.issubset(covered):\n        return\n    covered.update(cur_glyphs)\n\n    for st in self.SubTable:", "    if cur_glyphs <= covered:\n        return\n    covered.update(cur_glyphs)\n\n    for st in self.SubTable:", "C07", "LookupClosureMemo", "green"),
 ]
 
 
